@@ -238,7 +238,7 @@ func checkC17(cfg *core.Config) int {
 			addCase("all-files", scratch, abs(rels), false)
 		}
 		// error cases
-		switch i % 4 {
+		switch i % 5 {
 		case 0:
 			addCase("err-missing-file", scratch, append(abs(pick(1)), filepath.Join(root, dirs[0], "nope.go")), true)
 		case 1:
@@ -250,6 +250,15 @@ func checkC17(cfg *core.Config) int {
 			os.MkdirAll(bad, 0o755)
 			os.WriteFile(filepath.Join(bad, "bad.go"), []byte("package broken\n\ntype T struct{ A undefinedType }\n"), 0o644)
 			addCase("err-type-error", scratch, []string{filepath.Join(bad, "bad.go")}, true)
+		case 3:
+			// a type error in a package of the module reached only through an import
+			bad := filepath.Join(root, "brokendep")
+			front := filepath.Join(root, "frontpkg")
+			os.MkdirAll(bad, 0o755)
+			os.MkdirAll(front, 0o755)
+			os.WriteFile(filepath.Join(bad, "dep.go"), []byte("package brokendep\n\ntype D struct{ A int }\n\nfunc (d D) Broken() string { return d.A }\n"), 0o644)
+			os.WriteFile(filepath.Join(front, "front.go"), []byte("package frontpkg\n\nimport \"example.com/lay/brokendep\"\n\ntype F struct{ D brokendep.D }\n"), 0o644)
+			addCase("err-type-error-in-imported-package", scratch, []string{filepath.Join(front, "front.go")}, true)
 		default:
 			bad := filepath.Join(root, "syntax")
 			os.MkdirAll(bad, 0o755)
